@@ -104,6 +104,8 @@ def gen_scenario(rng, fam):
                    'reads_stdin': rng.random() < 0.1,
                    'args': rng.choice(([], ['-x'], ['two words', '$HOME'],
                                        ["it's"], ['-x'], [],
+                                       # braces mean nothing to valjean
+                                       ['{print $1}', '${VAR:-x}', '{{x}}'],
                                        # a file name that is not valid UTF-8,
                                        # as os.listdir() returns it
                                        ['caf\udce9.txt'],
